@@ -115,6 +115,14 @@ def check_dbi_normalisation(ctx, ck, rule='R-DEP.dbi-normalised'):
           'dBi array has no requested power / distance among its %d roots' % len(r))
     need = {('attr', 'self.power'), ('attr', 'self.current')}
     miss = sorted(need - r)
+    if miss:
+        # a value that came through a callable held in a local (a partial, a bound method picked per image,
+        # an element of a generator of callables) is not followed by the roots: nothing can be concluded
+        opaque = sorted(x[1] for x in r if x[0] == 'call' and '.' not in x[1] and
+                        (x[1] in fl.rd.names or x[1] in f.all_params))
+        if opaque:
+            raise AnalysisError('%s: the dBi array is computed through the local callable(s) %s, its dependencies '
+                                'are not followed there' % (FAR, opaque))
     ck.ob(rule, FAR + '|gain-normalised-by-power', not miss, f.loc(st),
           'dBi array lacks roots %s' % miss if miss else 'dBi array depends on self.power and self.current')
     return r
